@@ -37,7 +37,7 @@ StartBlock(r) == LET r1 == Flush(r)
                  IN [r2 EXCEPT !.abe = FALSE]
 NewLineHard(r) == IF IsNull(r.wb) THEN AddEmptyLine(r)
                   ELSE IF r.wb.wordlen = 0 /\ SumW(r.wb.line) = 0 THEN AddEmptyLine(r) ELSE Flush(r)
-StrikeFilter(s) == FoldLeft(LAMBDA acc, c : IF CW(c) > 0 THEN acc \o << c, <<STRIKE, 0>> >> ELSE Append(acc, c), <<>>, s)
+StrikeFilter(s) == FoldLeft(LAMBDA acc, c : IF CW(c) > 0 /\ ~IsWs(c) THEN acc \o << c, <<STRIKE, 0>> >> ELSE Append(acc, c), <<>>, s)
 WrapWidth(r, cf) == IF cf.maxwrap >= 0 THEN Min2(cf.maxwrap, r.width) ELSE r.width
 GetWB(r, cf) == IF IsNull(r.wb) THEN NewWB(WrapWidth(r, cf), cf.pad, cf.overflow) ELSE r.wb
 AddInlineText(r, s0, cf) ==
